@@ -52,7 +52,7 @@ def do_step(t, step, refdir, workdir):
     if a == 'string':
         t.assertStringCorrect(step['actual'], ref, **kw)
     elif a == 'textfile':
-        p = os.path.join(workdir, 'actual_' + step['ref'])
+        p = os.path.join(workdir, step.get('actual_name') or ('actual_' + step['ref']))
         write_bytes(p, step['actual'].encode('utf-8'))
         t.assertTextFileCorrect(p, ref, **kw)
     elif a == 'textfiles':
